@@ -355,6 +355,11 @@ fn single_faults(cat: &Catalogue) -> Vec<(String, usize, usize)> {
       }
       out.push((f.to_string(), i, 0));
     }
+    // an id that collides with the id of another element (the next attribute named `id` with another value)
+    if cat.attrs[i].name == "id" && !cat.attrs[i].owner_tag.starts_with("DMN") {
+      out.push(("id_collision".to_string(), i, 0));
+      out.push(("id_collision".to_string(), i, 1));
+    }
     // diagram attributes (two thirds of all attributes) are numbers, colours and references: they
     // get the odd values of those kinds only
     if !cat.attrs[i].owner_tag.starts_with("DMN") && cat.attrs[i].owner_tag != "Bounds" && cat.attrs[i].owner_tag != "waypoint" && cat.attrs[i].owner_tag != "Size" {
@@ -434,6 +439,17 @@ fn edits_of(cat: &Catalogue, kind: &str, index: usize, variant: usize) -> Option
     "odd_attribute_value" => {
       let a = cat.attrs.get(index)?;
       Some((vec![(a.vstart, a.vend, ODD_VALUES[variant % ODD_VALUES.len()].as_bytes().to_vec())], format!("{}@{}", a.owner_tag, a.name)))
+    }
+    "id_collision" => {
+      let a = cat.attrs.get(index)?;
+      let own = &t[a.vstart..a.vend];
+      // variant 0: the id of the next element that has another id and another tag; variant 1: of the previous one
+      let other = if variant % 2 == 0 {
+        cat.attrs[index + 1..].iter().find(|b| b.name == "id" && b.owner_tag != a.owner_tag && &t[b.vstart..b.vend] != own)
+      } else {
+        cat.attrs[..index].iter().rev().find(|b| b.name == "id" && b.owner_tag != a.owner_tag && &t[b.vstart..b.vend] != own)
+      }?;
+      Some((vec![(a.vstart, a.vend, t[other.vstart..other.vend].to_vec())], format!("{}@id", a.owner_tag)))
     }
     "odd_diagram_value" => {
       let a = cat.attrs.get(index)?;
@@ -1235,7 +1251,7 @@ impl Sim for C12 {
     parr(plan, "faults").iter().any(|f| edits_of(&catalogue(pstr(plan, "base")), pstr(f, "kind"), pu64(f, "index") as usize, pu64(f, "variant") as usize).is_none())
   }
   fn rule_text(&self) -> String {
-    "cases = (base model text, fault list): every single structural fault (delete / duplicate / empty / swap an element, delete / empty / swap attribute values, 11 odd values per model attribute (two of them long multi-byte texts) and 5 per diagram attribute, delete / swap text nodes, 40 odd contents and 12 seeded token soups of the FEEL vocabulary per FEEL text and typeRef, retarget every href to a missing element, to its own owner and to each element requiring the owner within 3 steps, retarget item definition typeRefs to their own definition and to their referrers) at every position of every .dmn file under examples/src plus the simulator's models - all of them in the thorough tier, every reference fault plus a seeded one-in-5 stratified sample of the rest in the quick tier - then seeded pairs and storage faults (truncate, lost write, bit/burst flips, dropped/duplicated/swapped 64-byte blocks, foreign block spliced in, invalid UTF-8), then seeded cases through the directory-load and HTTP paths; distinct = distinct faulted texts (hash); non-trivial = the fault changed the text".to_string()
+    "cases = (base model text, fault list): every single structural fault (delete / duplicate / empty / swap an element, delete / empty / swap attribute values, 11 odd values per model attribute (two of them long multi-byte texts) and 5 per diagram attribute, every id set to the id of the next / previous element of another kind, delete / swap text nodes, 40 odd contents and 12 seeded token soups of the FEEL vocabulary per FEEL text and typeRef, retarget every href to a missing element, to its own owner and to each element requiring the owner within 3 steps, retarget item definition typeRefs to their own definition and to their referrers) at every position of every .dmn file under examples/src plus the simulator's models - all of them in the thorough tier, every reference fault plus a seeded one-in-5 stratified sample of the rest in the quick tier - then seeded pairs and storage faults (truncate, lost write, bit/burst flips, dropped/duplicated/swapped 64-byte blocks, foreign block spliced in, invalid UTF-8), then seeded cases through the directory-load and HTTP paths; distinct = distinct faulted texts (hash); non-trivial = the fault changed the text".to_string()
   }
   fn assumptions(&self) -> Vec<String> {
     vec![
